@@ -300,10 +300,29 @@ def check(ctx):
     gcp = mk_gcp(ctx)
     outs = {}
 
-    def gcp_impl(c):
+    def guard(fn, store, c):
+        """an exception while running/observing/encoding is a finding, never a crash"""
+        try:
+            return fn(c)
+        except Exception as e:  # noqa: BLE001
+            store[id(c)] = e
+            return "raised %s: %s" % (type(e).__name__, e)
+
+    def judge(fn, c, o, *a):
+        if isinstance(o, Exception):
+            return "exception while observing: %s: %s" % (type(o).__name__, o)
+        try:
+            return fn(c, o, *a)
+        except Exception as e:  # noqa: BLE001
+            return "exception while evaluating the oracle: %s: %s" % (type(e).__name__, e)
+
+    def gcp_impl0(c):
         o = run_gcp(c)
         outs[id(c)] = o
         return gcp_reply(o)
+
+    def gcp_impl(c):
+        return guard(gcp_impl0, outs, c)
 
     ctx.tie("C18/get_cursor_position", gcp, gcp_line, gcp_impl)
     for c in gcp:
@@ -311,39 +330,51 @@ def check(ctx):
         ctx.count(dict(e=c["events"], cb=c["cb"]), nontrivial=bool(c["pre"]),
                   tag="gcp:" + ("lookalike" if c.get("lookalike") else "empty-read" if c.get("has_empty") else
                                 "oserror" if "E" in c["events"] else "plain"))
-        w = gcp_oracle(c, o)
+        w = judge(gcp_oracle, c, o)
         if w:
             ctx.violation("get_cursor_position: " + w, c, None)
 
     once, vd = mk_diff(ctx)
     o_once = {}
 
-    def once_impl(c):
+    def once_impl0(c):
         o = run_once(c)
         o_once[id(c)] = o
         return "ok %d %s %d" % (o["top"], opt(o["last"]), o["ret"])
 
+    def once_impl(c):
+        return guard(once_impl0, o_once, c)
+
+    def once_oracle(c, o):
+        moved = 0 if c["last"] is None else c["row"] - c["last"]
+        if (o["top"] - c["top"]) + o["ret"] != moved or o["last"] != c["row"] or (c["last"] is None and (o["ret"] or o["top"] != c["top"])):
+            return "top %+d, returned %d, cursor moved %d" % (o["top"] - c["top"], o["ret"], moved)
+        return None
+
     ctx.tie("C18/diff_once", once, lambda c: "once %d %s %d" % (c["top"], opt(c["last"]), c["row"]), once_impl)
     for c in once:
         o = o_once[id(c)]
-        moved = 0 if c["last"] is None else c["row"] - c["last"]
-        ctx.count(c, nontrivial=moved != 0, tag="once")
-        if (o["top"] - c["top"]) + o["ret"] != moved or o["last"] != c["row"] or (c["last"] is None and (o["ret"] or o["top"] != c["top"])):
-            ctx.violation("_get_cursor_vertical_diff_once: top %+d, returned %d, cursor moved %d"
-                          % (o["top"] - c["top"], o["ret"], moved), c, None)
+        ctx.count(c, nontrivial=c["last"] is not None and c["row"] != c["last"], tag="once")
+        w = judge(once_oracle, c, o)
+        if w:
+            ctx.violation("_get_cursor_vertical_diff_once: " + w, c, None)
     o_vd = {}
 
-    def vd_impl(c):
+    def vd_impl0(c):
         o = run_vdiff(c)
         o_vd[id(c)] = o
         return vdiff_reply(c, o)
+
+    def vd_impl(c):
+        window().in_get_cursor_diff = False
+        return guard(vd_impl0, o_vd, c)
 
     ctx.tie("C18/vertical_diff", vd, lambda c: "vdiff %d %s %d %s" % (
         c["top"], opt(c["last"]), c["in_diff"], ",".join("%d:%d" % rn for rn in c["rounds"])), vd_impl)
     for c in vd:
         o = o_vd[id(c)]
         ctx.count(c, nontrivial=len(c["rounds"]) > 1, tag="vdiff:%d" % min(len(c["rounds"]), 4))
-        w = vdiff_oracle(c, o)
+        w = judge(vdiff_oracle, c, o)
         if w:
             ctx.violation("get_cursor_vertical_diff: " + w, c, None)
 
@@ -360,13 +391,22 @@ def seq_oracle(ctx):
         row0 = row = r.randint(0, 20)
         w._last_cursor_row, w.in_get_cursor_diff = row, False
         total, hist = 0, []
+        crashed = None
         for _ in range(r.randint(1, 6)):
             row = max(0, row + r.randint(-6, 6))
-            w.in_stream = Scripted(report_for(row))
-            total += w.get_cursor_vertical_diff()
             hist.append(row)
+            w.in_stream = Scripted(report_for(row))
+            try:
+                total += w.get_cursor_vertical_diff()
+            except Exception as e:  # noqa: BLE001
+                crashed = e
+                break
         case = dict(kind="seq", top=top0, row0=row0, rows=hist)
         ctx.count(case, tag="vdiff-sequence")
+        if crashed is not None:
+            w.in_get_cursor_diff = False
+            ctx.violation("sequence of get_cursor_vertical_diff calls raised %s: %s" % (type(crashed).__name__, crashed), case, None)
+            continue
         if (w.top_usable_row - top0) + total != hist[-1] - row0:
             ctx.violation("sequence of get_cursor_vertical_diff calls: top changed by %d, returned %d in total, cursor moved %d"
                           % (w.top_usable_row - top0, total, hist[-1] - row0), case, None)
